@@ -316,7 +316,7 @@ theorem twin_history (cfg : Config) (k : Nat) (hnew : cfg.matches .new = true) (
       · exact Or.inl h
       · exact Or.inr (Or.inl h)
     obtain ⟨hev, hT'⟩ := twin_step cfg { cfg with kept := k } rfl rfl rfl hnew hundo U hU F₁ F₂ s₁ s₂ P b hT hI₁ hI₂
-      hJ₁ hJ₂ hi₁ hi₂ hbU hL₁.1 hL₂.1 hincl
+      hJ₁ hJ₂ hi₁ hi₂ hbU hL₁.1 hL₂.1 (hni s₁ hincl)
     obtain ⟨P₁, F₁', hrun₁, hI₁', hJ₁', htip₁⟩ :=
       Props.C01.step_discipline_consistent cfg hnew hundo hirr U hU F₁ s₁ P b hI₁ hJ₁ hbU hL₁.1 (hni s₁ hincl)
     obtain ⟨P₂, F₂', hrun₂, hI₂', hJ₂', _⟩ :=
@@ -365,6 +365,123 @@ theorem outputs_independent_of_retention (cfg : Config) (k : Nat) (r : Ref) (hr 
     (Props.C01.init_inv cfg r hr hroot) (Props.C01.init_inv cfg r hr hroot)
     (Props.C01.init_inv2 cfg r hroot U h1 h2) (Props.C01.init_inv2 cfg r hroot U h1 h2)
     (initNumOK_init cfg) (initNumOK_init cfg) hin hL₁ hL₂ (Or.inl (by unfold init; rw [hroot]))
+
+theorem addLink_initNum (db : DB) (b : Blk) : (db.addLink b).1.initNum = db.initNum := by
+  unfold DB.addLink
+  split
+  · rfl
+  · split
+    · rfl
+    · cases db.find b.id <;> rfl
+
+/-- the same for a forkable started on an **inclusive** LIB (the starting block itself is delivered when it arrives):
+    until something is delivered the two forkables are in the same state, the delivery of the starting block does not
+    involve the retention setting, and from the first delivery on `twin_history` applies -/
+theorem twin_history_inclusive (cfg : Config) (k : Nat) (hnew : cfg.matches .new = true) (hundo : cfg.matches .undo = true)
+    (hirr : cfg.matches .irreversible = true) (U : Id → Option Blk) (hU : UOK U) (h : List Blk) (F : List Id)
+    (s : FState) (P : List Id) (hI : Inv s P) (hJ : Inv2 U F s.db) (hi : InitNumOK s.db)
+    (hincl : s.includeInit = true) (hls : s.lastSent = none)
+    (hin : ∀ b ∈ h, U b.id = some b) (hL₁ : Props.C01.LibHistOK cfg s h)
+    (hL₂ : Props.C01.LibHistOK { cfg with kept := k } s h) :
+    (runHistory { cfg with kept := k } s h).2 = (runHistory cfg s h).2 := by
+  induction h generalizing s P F with
+  | nil => rfl
+  | cons b r ih =>
+    have hbU := hin b (by simp)
+    have hb := hU.wf b.id b hbU
+    rw [Props.C01.runHistory_cons, Props.C01.runHistory_cons]
+    simp only
+    by_cases hid : b.id = s.db.libRef.id
+    · -- the starting block itself
+      have hplan : plan cfg s b = .initial s := by
+        unfold plan
+        have h1 : (b.id == b.parent) = false := by simpa using hb.2.2
+        have h2 : (decide (b.num < s.db.libRef.num) && s.lastSent.isSome) = false := by simp [hls]
+        have h3 : (s.includeInit && s.lastSent.isNone && b.id == s.db.libRef.id) = true := by simp [hincl, hls, hid]
+        simp [h1, h2, h3]
+      have hsame := initial_ignores_kept cfg k s b hplan
+      obtain ⟨_, hlast', hlib', hI', hJ'⟩ := inclusive_root_step cfg hnew hirr U hU F s P b hI hJ hincl hls hbU hid
+      have hi' : InitNumOK (processBlock cfg s b none).1.db := by
+        intro i n hin' hid'
+        rw [hlib'] at hid' ⊢
+        apply hi i n _ hid'
+        -- the initial delivery keeps the extra `nums` entry
+        have : (processBlock cfg s b none).1.db.initNum = s.db.initNum := by
+          unfold processBlock
+          rw [hplan]
+          simp only [processInitialInclusive, finish]
+          rw [initialAcc_eq]
+          simp only
+          split
+          · rw [show (initFirst cfg { s with db := (s.db.addLink b).1 } b none).st.db.initNum = s.db.initNum from by
+              unfold initFirst; split
+              · rw [phase_incl]; exact addLink_initNum s.db b
+              · exact addLink_initNum s.db b]
+          · rw [processIrr_db]
+            simp only [initSt]
+            split
+            · show ((initFirst cfg { s with db := (s.db.addLink b).1 } b none).st.db.markSent b.id).initNum = s.db.initNum
+              show (initFirst cfg { s with db := (s.db.addLink b).1 } b none).st.db.initNum = s.db.initNum
+              unfold initFirst; split
+              · rw [phase_incl]; exact addLink_initNum s.db b
+              · exact addLink_initNum s.db b
+            · show (initFirst cfg { s with db := (s.db.addLink b).1 } b none).st.db.initNum = s.db.initNum
+              unfold initFirst; split
+              · rw [phase_incl]; exact addLink_initNum s.db b
+              · exact addLink_initNum s.db b
+        rw [← this]; exact hin'
+      rw [hsame]
+      congr 1
+      have hL₂' := hL₂.2
+      rw [hsame] at hL₂'
+      exact twin_history cfg k hnew hundo hirr U hU r F F _ _ [] (Twin.refl _) hI' hI' hJ' hJ' hi' hi'
+        (fun x hx => hin x (by simp [hx])) hL₁.2 hL₂' (Or.inr (by rw [hlast']; rfl))
+    · -- another block: an ordinary step from identical states
+      have hni : s.includeInit = false ∨ s.lastSent.isSome = true ∨ b.id ≠ s.db.libRef.id := Or.inr (Or.inr hid)
+      obtain ⟨hev, hT'⟩ := twin_step cfg { cfg with kept := k } rfl rfl rfl hnew hundo U hU F F s s P b (Twin.refl s) hI hI
+        hJ hJ hi hi hbU hL₁.1 hL₂.1 hni
+      obtain ⟨P₁, F₁', hrun₁, hI₁', hJ₁', _⟩ :=
+        Props.C01.step_discipline_consistent cfg hnew hundo hirr U hU F s P b hI hJ hbU hL₁.1 hni
+      obtain ⟨P₂, F₂', hrun₂, hI₂', hJ₂', _⟩ :=
+        Props.C01.step_discipline_consistent { cfg with kept := k } hnew hundo hirr U hU F s P b hI hJ hbU hL₂.1 hni
+      have hPP : P₂ = P₁ := by
+        rw [hev, hrun₁] at hrun₂
+        have := Option.some.inj hrun₂
+        exact (CS.mk.inj this).2.symm
+      subst hPP
+      obtain ⟨_, _, _, _, _, hshape₁, _⟩ := processBlock_step cfg hnew hundo hirr s P b hI hni
+        (sentClosed_of_inv2 U F s.db hI.wf hI.heights hJ) hb (hb_of_inv2 U hU F s.db hJ b hbU) hL₁.1
+      obtain ⟨_, _, _, _, _, hshape₂, _⟩ := processBlock_step { cfg with kept := k } hnew hundo hirr s P b hI hni
+        (sentClosed_of_inv2 U F s.db hI.wf hI.heights hJ) hb (hb_of_inv2 U hU F s.db hJ b hbU) hL₂.1
+      have hi₁' := initNumOK_step cfg s b _ hshape₁ hi
+      have hi₂' := initNumOK_step _ s b _ hshape₂ hi
+      rw [hev]
+      congr 1
+      cases hls' : (processBlock cfg s b none).1.lastSent with
+      | none =>
+        have heq := hT'.eq_of_not_started hls'
+        have hL₂' := hL₂.2
+        rw [heq] at hL₂' ⊢
+        exact ih F₁' _ P₂ hI₁' hJ₁' hi₁' (by rw [processBlock_includeInit]; exact hincl) hls'
+          (fun x hx => hin x (by simp [hx])) hL₁.2 hL₂'
+      | some l =>
+        exact twin_history cfg k hnew hundo hirr U hU r F₁' F₂' _ _ P₂ hT' hI₁' hI₂' hJ₁' hJ₂' hi₁' hi₂'
+          (fun x hx => hin x (by simp [hx])) hL₁.2 hL₂.2 (Or.inr (by rw [hls']; rfl))
+
+/-- **outputs do not depend on the retention setting**, inclusive starting LIB -/
+theorem outputs_independent_of_retention_inclusive (cfg : Config) (k : Nat) (r : Ref) (hr : r.id ≠ "")
+    (hroot : cfg.root = some (.inclusive r)) (hnew : cfg.matches .new = true) (hundo : cfg.matches .undo = true)
+    (hirr : cfg.matches .irreversible = true) (U : Id → Option Blk) (hU : UOK U)
+    (h1 : ∀ b, U b.id = some b → b.parent = r.id → r.num < b.num)
+    (h2 : ∀ b, U b.id = some b → b.id = r.id → b.num = r.num)
+    (h : List Blk) (hin : ∀ b ∈ h, U b.id = some b)
+    (hL₁ : Props.C01.LibHistOK cfg (init cfg) h)
+    (hL₂ : Props.C01.LibHistOK { cfg with kept := k } (init { cfg with kept := k }) h) :
+    (runHistory { cfg with kept := k } (init { cfg with kept := k }) h).2 = (runHistory cfg (init cfg) h).2 := by
+  have hinit : init { cfg with kept := k } = init cfg := by unfold init; rfl
+  rw [hinit] at hL₂ ⊢
+  obtain ⟨hI, hJ, hincl, hls⟩ := Props.C01.init_inv_inclusive cfg r hr hroot U h1 h2
+  exact twin_history_inclusive cfg k hnew hundo hirr U hU h [r.id] (init cfg) [] hI hJ (initNumOK_init cfg) hincl hls hin hL₁ hL₂
 
 /-! ### outputs do not depend on re-fed or below-LIB blocks -/
 
